@@ -165,3 +165,42 @@ package iterator
 //@   ensures [C02,C18:a-released-iterator-reports-that-it-was-released] (old(i.err) == nil && old(i.BasicReleaser.released)) ==> (!result && i.err == ErrIterReleased)
 //@   at before call iterator.IteratorSeeker.First#1
 //@     assert [C02:the-index-goes-to-its-first-entry] recv == i.index
+
+// C08 / C02: the error of a source becomes the error of the iterator built on it - always in strict mode, and
+// otherwise unless it is a corruption error (those are reported through the error callback and the walk goes on).
+// A source that failed is never taken for one that simply ended.
+//@ ghost var gSrcFailed bool
+//@ ghost var gSrcCorrupted bool
+//@ func (*mergedIterator).iterErr
+//@   props C08 C02
+//@   safety off
+//@   at entry
+//@     ghost gSrcFailed = false
+//@     ghost gSrcCorrupted = false
+//@   at call iterator.CommonIterator.Error#1
+//@     ghost gSrcFailed = result != nil
+//@   at call IsCorrupted#1
+//@     ghost gSrcCorrupted = result
+//@   ensures [C02,C08:a-failed-source-fails-the-iterator] (gSrcFailed && (i.strict || !gSrcCorrupted)) ==> (result && i.err != nil)
+//@   ensures [C02,C08:a-healthy-source-changes-nothing] !gSrcFailed ==> (!result && i.err == old(i.err))
+//@ func (*indexedIterator).dataErr
+//@   props C08 C02
+//@   safety off
+//@   at entry
+//@     ghost gSrcFailed = false
+//@     ghost gSrcCorrupted = false
+//@   at call iterator.CommonIterator.Error#1
+//@     ghost gSrcFailed = result != nil
+//@   at call IsCorrupted#1
+//@     ghost gSrcCorrupted = result
+//@   ensures [C02,C08:a-failed-source-fails-the-iterator] (gSrcFailed && (i.strict || !gSrcCorrupted)) ==> (result && i.err != nil)
+//@   ensures [C02,C08:a-healthy-source-changes-nothing] !gSrcFailed ==> (!result && i.err == old(i.err))
+//@ func (*indexedIterator).indexErr
+//@   props C08 C02
+//@   safety off
+//@   at entry
+//@     ghost gSrcFailed = false
+//@   at call iterator.CommonIterator.Error#1
+//@     ghost gSrcFailed = result != nil
+//@   ensures [C02,C08:a-failed-index-fails-the-iterator] gSrcFailed ==> i.err != nil
+//@   ensures [C02,C08:a-healthy-source-changes-nothing] !gSrcFailed ==> i.err == old(i.err)
